@@ -270,6 +270,13 @@ class Repo:
                     self.funcs[fi.qual] = fi
         self._helper_width_cache = {}
         from . import normalize
+        from . import sym as _sym
+        _sym.SENTINELS.clear()
+        for m_ in self.mods.values():
+            for name_, vals_ in m_.assigns.items():
+                if vals_ and all(isinstance(v_, ast.Call) and isinstance(v_.func, ast.Name) and v_.func.id == "object" and not v_.args
+                                 for v_ in vals_):
+                    _sym.SENTINELS.add(name_)
         self.normalizer = normalize.apply(self)
 
     # ------------------------------------------------------------ lookup
